@@ -210,7 +210,7 @@ fn fail_retry_profile() -> Profile {
 pub fn sc_fail_retry_ledger(idx: u64, seed: u64, _t: bool) -> RunOut {
     let plan = Plan {
         scenario: "fail-retry-ledger",
-        opts: CfgOpts { record: true, late_psk: 300, ..CfgOpts::default() },
+        opts: CfgOpts { record: true, late_psk: 300, surplus_rs: 150, ..CfgOpts::default() },
         profile: Profile { tr_rekey: 60, tr_rekey_sync: 40, tr_nonce_explicit: 40, ..fail_retry_profile() },
         mode: "plain",
         warm_parallel: false,
@@ -222,7 +222,7 @@ pub fn sc_fail_retry_ledger(idx: u64, seed: u64, _t: bool) -> RunOut {
 pub fn sc_fail_retry_control(idx: u64, seed: u64, _t: bool) -> RunOut {
     let plan = Plan {
         scenario: "fail-retry-control",
-        opts: CfgOpts { rng_mode: RngMode::PerCall, late_psk: 300, sessions: 2, ..CfgOpts::default() },
+        opts: CfgOpts { rng_mode: RngMode::PerCall, late_psk: 300, sessions: 2, surplus_rs: 150, ..CfgOpts::default() },
         profile: fail_retry_profile(),
         mode: "control",
         warm_parallel: true,
@@ -315,7 +315,9 @@ pub fn apply_mismatch(cfg: &mut RunCfg, rng: &mut Rng) {
     if proto.is_psk() {
         choices.push("psk-bit");
         choices.push("psk-bit");
+        choices.push("psk-long-via-set_psk");
     }
+    choices.push("big-prologue-tail");
     if proto.needs_remote_static(true) {
         choices.push("rs-initiator");
         choices.push("rs-initiator-bit255");
@@ -347,6 +349,32 @@ pub fn apply_mismatch(cfg: &mut RunCfg, rng: &mut Rng) {
             "psk-bit" => {
                 let k = rng.usize_below(cfg.nodes[side].psks.len());
                 flip_bit(&mut cfg.nodes[side].psks[k].key, rng);
+            },
+            "psk-long-via-set_psk" => {
+                // one side tries to install, through set_psk, a longer key that merely starts with
+                // the agreed 32 bytes
+                let k = rng.usize_below(cfg.nodes[side].psks.len());
+                let extra = rng.range(1, 32) as usize;
+                let tail = rng.bytes(extra);
+                cfg.nodes[side].psks[k].key.extend_from_slice(&tail);
+                cfg.nodes[side].psks[k].at_boot = false;
+            },
+            "big-prologue-tail" => {
+                // a shared prologue longer than 65535 bytes; the peers differ only near its end
+                let len = *rng.pick(&[65_536usize, 65_537, 70_000, 131_071]);
+                let big = rng.bytes(len);
+                cfg.nodes[0].prologue = big.clone();
+                cfg.nodes[1].prologue = big;
+                match rng.below(3) {
+                    0 => {
+                        let l = cfg.nodes[side].prologue.len();
+                        cfg.nodes[side].prologue[l - 1] ^= 1;
+                    },
+                    1 => cfg.nodes[side].prologue.push(0),
+                    _ => {
+                        cfg.nodes[side].prologue.pop();
+                    },
+                }
             },
             "rs-initiator" | "rs-initiator-bit255" => {
                 // the initiator believes in a different (valid) responder key
@@ -507,7 +535,7 @@ fn chaos_profile() -> Profile {
 pub fn sc_chaos(idx: u64, seed: u64, _t: bool) -> RunOut {
     let plan = Plan {
         scenario: "chaos",
-        opts: CfgOpts { sessions: 2, late_psk: 200, record: idx % 4 == 0, ..CfgOpts::default() },
+        opts: CfgOpts { sessions: 2, late_psk: 200, record: idx % 4 == 0, surplus_rs: 100, ..CfgOpts::default() },
         profile: chaos_profile(),
         mode: "plain",
         warm_parallel: true,
@@ -566,6 +594,17 @@ pub fn sc_chaos_keys(idx: u64, seed: u64, _t: bool) -> RunOut {
                 }
                 label.push_str("surplus");
             },
+        }
+        if rng.chance(1, 8) {
+            // names that parse but are not buildable: psk positions beyond the pattern
+            let parts: Vec<String> = cfg.nodes[n].name.split('_').map(|x| x.to_string()).collect();
+            let base = Proto::parse(&cfg.nodes[n].name).map(|p| p.base.clone()).unwrap_or_else(|_| "NN".into());
+            let odd = *rng.pick(&["psk10", "psk12", "psk99", "psk100", "psk255", "psk5", "psk9", "psk0+psk10", "fallback", "psk1+fallback"]);
+            let newname = format!("Noise_{base}{odd}_{}_{}_{}", parts[2], parts[3], parts[4]);
+            for node in cfg.nodes.iter_mut() {
+                node.name = newname.clone();
+            }
+            label.push_str(&format!("+name-{odd}"));
         }
         if rng.chance(1, 6) {
             let idx = *rng.pick(&[9u8, 10, 11, 100, 255]);
@@ -732,6 +771,9 @@ pub fn boot_matrix_cfgs() -> Vec<RunCfg> {
                 variants.push(("fallback+psk0".into(), None));
                 variants.push(("psk1+fallback+psk0".into(), None));
                 variants.push(("psk1+psk0".into(), None));
+                for odd in ["psk10", "psk12", "psk25", "psk100", "psk1x", "psk2fallback", "psk1psk0", "psk", "psk01", "psk+1"] {
+                    variants.push((odd.into(), None));
+                }
                 for d in [Prim::Rng, Prim::Dh, Prim::Hash, Prim::Cipher] {
                     variants.push((String::new(), Some(d)));
                 }
